@@ -227,6 +227,14 @@ def run(ctx):
                 return Infidelity(t).evaluate(s, None)
             evs.append({"fn": "infidelity", "via": f"Infidelity(target={trep},state={srep})", "a": i + 1, "b": j + 1,
                         "out": rat_out(metric)})
+        # the trace-distance metric with a stabilizer STATE against a density-matrix target (the state is converted inside);
+        # the spec decides the value where it is rational (equal, orthogonal or otherwise commuting pairs)
+        jj = j if (i + j) % 3 else i
+
+        def td_cross(i=i, jj=jj):
+            return TraceDistance(QuantumState(reps[i][1].copy(), rep_type="dm")).evaluate(
+                QuantumState(reps[jj][2].copy(), rep_type="s"), None)
+        evs.append({"fn": "trace_distance", "via": "TraceDistance(target=dm,state=s)", "a": i + 1, "b": jj + 1, "out": rat_out(td_cross)})
     for k in range(0, len(evs), 300):
         tid += 1
         traces.append({"tid": tid, "meta": {"n": 2, "kind": "cross-representation"}, "states": states, "events": evs[k:k + 300]})
